@@ -65,3 +65,49 @@ func RaceSignature(report string) string {
 	}
 	return "race:" + strings.Join(tops, "|")
 }
+
+// KevoRaces keeps, of a race detector log, the reports in which both accesses
+// were made by kevo's own code: walking each access stack from the top, past
+// frames of the Go runtime and standard library, the first frame must be a
+// function under github.com/KevoDB/kevo/pkg/. Reports between parts of the
+// harness (whose tasks share plain variables by design, the baton being
+// invisible to the detector) are dropped.
+func KevoRaces(log string) string {
+	var keep []string
+	for _, rep := range strings.Split(log, "==================") {
+		if !strings.Contains(rep, "DATA RACE") {
+			continue
+		}
+		stacks, ok := 0, 0
+		lines := strings.Split(rep, "\n")
+		for i := 0; i < len(lines); i++ {
+			l := strings.TrimSpace(lines[i])
+			if !(strings.HasPrefix(l, "Write at") || strings.HasPrefix(l, "Read at") || strings.HasPrefix(l, "Previous write at") || strings.HasPrefix(l, "Previous read at") ||
+				strings.HasPrefix(l, "Atomic write at") || strings.HasPrefix(l, "Previous atomic write at") || strings.HasPrefix(l, "Atomic read at") || strings.HasPrefix(l, "Previous atomic read at")) {
+				continue
+			}
+			stacks++
+			for j := i + 1; j < len(lines); j++ {
+				f := strings.TrimSpace(lines[j])
+				if f == "" {
+					break
+				}
+				if !strings.HasSuffix(f, ")") || strings.Contains(f, ".go:") {
+					continue // file:line lines
+				}
+				if strings.HasPrefix(f, "runtime.") || strings.HasPrefix(f, "internal/") || strings.HasPrefix(f, "sync.") || strings.HasPrefix(f, "sync/") ||
+					strings.HasPrefix(f, "bytes.") || strings.HasPrefix(f, "strings.") || strings.HasPrefix(f, "sort.") || strings.HasPrefix(f, "fmt.") || strings.HasPrefix(f, "time.") {
+					continue
+				}
+				if strings.HasPrefix(f, "github.com/KevoDB/kevo/pkg/") {
+					ok++
+				}
+				break
+			}
+		}
+		if stacks >= 2 && ok >= 2 {
+			keep = append(keep, "==================\n"+strings.TrimSpace(rep)+"\n==================\n")
+		}
+	}
+	return strings.Join(keep, "")
+}
